@@ -179,6 +179,37 @@ func (s *SelectStmt) ValidateFields(ctx *CheckCtx) error {
 	return nil
 }
 
+// RewriteFieldNames makes a select field that is just the name of another
+// select field a reference to that field, as the name is everywhere else in
+// the statement: select upper(value) as f1, f1. It has to run before any
+// other clause resolves field names.
+func (s *SelectStmt) RewriteFieldNames(ctx *CheckCtx) error {
+	for i := range s.Fields {
+		name, ok := s.Fields[i].(*NameExpr)
+		if !ok {
+			continue
+		}
+		nexpr, have := ctx.GetNamedExpr(name.Data)
+		if !have || nexpr == Expression(name) {
+			continue
+		}
+		ctx.current = name
+		cycle := ctx.closesCycle(nexpr)
+		ctx.current = nil
+		if cycle {
+			return NewSyntaxError(name.Pos, "Field %s is defined in terms of itself", name.Data)
+		}
+		s.Fields[i] = &FieldReferenceExpr{
+			Name:      name,
+			FieldExpr: nexpr,
+		}
+		if i < len(s.FieldTypes) {
+			s.FieldTypes[i] = nexpr.ReturnType()
+		}
+	}
+	return nil
+}
+
 func (s *SelectStmt) validateField(f Expression, ctx *CheckCtx) error {
 	ctx.current = f
 	err := f.Check(ctx)
